@@ -41,6 +41,14 @@ def nolabel_layout():
     return spec
 
 
+def leadgap_layout(term="jcc:s0", annots=True):
+    """bytes that belong to no block in front of the first block: after the per-block split the first block does not
+    start at offset 0 of its byte interval"""
+    spec = text_layout(term, annots=annots)
+    spec["sections"][0]["blocks"][0]["gap"] = True
+    return spec
+
+
 def interleaved_layout():
     """F entry, G entry, F block, F block: function F is interleaved with G"""
     return {
@@ -356,6 +364,11 @@ def shapes(tier):
         spec["sections"][0]["blocks"][0]["align"] = 1  # a user alignment entry keeps gtirb_layout from guessing alignments
         spec["mods"] = copy.deepcopy(mods)
         out.append(("newfunc/%s" % mods_name(mods), spec))
+    for mods in ([ins("b0", 0, "mov")], [ins("b0", 1, "label")], [ins("b0", 2, "mov")], [dele("b0", 0, 1)], [rep("b0", 1, 2, "two")],
+                 [dele("b0", 0, 2)], [ins("b0", 1, "mov"), ins("b1", 1, "mov")], [ins("b1", 0, "mov")]):
+        spec = leadgap_layout()
+        spec["mods"] = copy.deepcopy(mods)
+        out.append(("leadgap/%s" % mods_name(mods), spec))
     # no function tables at all
     for mods in ([ins("b1", 1, "mov")], [dele("b1", 0, 3)], [dele("b1", 1, 2)]):
         spec = text_layout("jcc:s0", funcs=False)
